@@ -174,6 +174,54 @@ func TestC14(t *testing.T) {
 		r.Note("grid_size", len(grid))
 	}
 
+	// ---- queries: every ordered pair of query spellings on one host and path: repeated keys whose values hold the characters a
+	// careless comparison would use as a separator, or that concatenate to the same text, next to the grid's own spellings ----
+	if r.WantLayer("queries", true) {
+		qs := append(append([]string{}, c14Queries...),
+			"?t=a,b&t=c", "?t=a&t=b,c", "?t=a%2Cb&t=c", "?t=a,b,c", "?t=a&t=b&t=c", "?t=c&t=b&t=a", "?t=a|b&t=c", "?t=a&t=b|c", "?t=ab&t=c", "?t=a&t=bc", "?t=a+b&t=c", "?t=a&t=b+c", "?t=a%20b&t=c",
+			"?t=a=b", "?t=a%3Db", "?t=a&u=b", "?t=a%26u%3Db", "?t=&t=a", "?t=a&t=", "?t=a", "?t=a&t=a", "?t=a&t=a&t=b", "?t=a&t=b&t=b", "?t=a,a&t=b", "?t=a&t=a,b", "?t=a%00b&t=c", "?t=a&t=%00b&t=c",
+			"?t=a/b&t=c", "?t=a&t=b/c", "?t=1&t=10", "?t=11&t=0", "?t=a&t=b", "?a,b=1", "?a=1&b=1")
+		n := 0
+		for _, base := range []string{"https://example.com/a", "http://example.com:8080/"} {
+			for _, qa := range qs {
+				for _, qb := range qs {
+					for _, cs := range []bool{false, true} {
+						a, b := base+qa, base+qb
+						cell := fmt.Sprintf("queries %s %s %v", a, b, cs)
+						if !r.WantCell(cell) {
+							continue
+						}
+						n++
+						want := c14Equiv(oracle.NormIRI(a), oracle.NormIRI(b), cs)
+						var got, inList bool
+						pi := ev.Safe(func() {
+							got = ap.IRI(a).Equals(ap.IRI(b), cs)
+							inList = ap.IRIs{ap.IRI(a)}.Contains(ap.IRI(b))
+						})
+						r.Case(cell, qa != qb, "queries")
+						if n%997 == 0 {
+							r.Sample(cell, map[string]interface{}{"layer": "queries", "a": a, "b": b, "checkScheme": cs, "expected_equal": want, "got": got})
+						}
+						w := "ne"
+						if want {
+							w = "eq"
+						}
+						switch {
+						case pi != nil:
+							r.Report("queries", cell, "iri panic@"+pi.Frame, pi.Value, cell)
+						case got != want:
+							r.Report("queries", cell, "iri queries want="+w, fmt.Sprintf("IRI(%q).Equals(%q, %v) = %v, reference says %v", a, b, cs, got, want), cell)
+						case !cs && inList != want:
+							r.Report("queries", cell, "iri queries contains want="+w, fmt.Sprintf("IRIs{%q}.Contains(%q) = %v, reference says %v", a, b, inList, want), cell)
+						}
+					}
+				}
+			}
+		}
+		r.Cells(n, n)
+		r.Exhaustive("queries", !r.Replaying())
+	}
+
 	// ---- hosts: every pair of host spellings (names, IPv4, bracketed IPv6, with and without ports) on a small path/query set ----
 	if r.WantLayer("hosts", true) {
 		hostSpellings := []string{"example.com", "example.com:8080", "example.com:80", "example.com:8081", "example.org", "a.example.com", "127.0.0.1", "127.0.0.1:3000", "127.0.0.2", "127.0.0.1:3001",
